@@ -69,6 +69,48 @@ impl PidFileLocking {
         output_str.contains(&format!("{}", pid))
     }
 
+    /// Runs `f` while holding an exclusive advisory lock on the lock directory.
+    ///
+    /// Removing a stale lock file is a sequence (read the owner's pid, ask whether it is alive, unlink
+    /// the name). Without mutual exclusion another process could remove the stale file and publish
+    /// its own lock under the same name in the middle of that sequence, and the unlink would then
+    /// destroy a live lock. Every removal of a stale file and every publication of a lock file
+    /// happens under this guard.
+    fn with_dir_guard<T>(f: impl FnOnce() -> io::Result<T>) -> io::Result<T> {
+        let lock_dir = user_forc_directory().join(".lsp-locks");
+        create_dir_all(&lock_dir)?;
+        let guard_file = std::fs::OpenOptions::new()
+            .create(true)
+            .truncate(false)
+            .write(true)
+            .open(lock_dir.join(".guard"))?;
+        let mut guard = fd_lock::RwLock::new(guard_file);
+        let _held = guard.write()?;
+        f()
+    }
+
+    /// Removes `path` if it still holds exactly `stale_contents` (the text that was judged stale).
+    fn remove_if_unchanged(path: &Path, stale_contents: &str) -> io::Result<bool> {
+        Self::with_dir_guard(|| {
+            let mut current = String::new();
+            match File::open(path) {
+                Ok(mut file) => {
+                    file.read_to_string(&mut current).ok();
+                }
+                Err(_) => return Ok(false),
+            }
+            if current != stale_contents {
+                // Replaced by somebody's live lock since it was read.
+                return Ok(false);
+            }
+            match remove_file(path) {
+                Ok(()) => Ok(true),
+                Err(e) if e.kind() == io::ErrorKind::NotFound => Ok(false),
+                Err(e) => Err(e),
+            }
+        })
+    }
+
     /// Removes the lock file if it is not locked or the process that locked it is no longer active
     pub fn release(&self) -> io::Result<()> {
         if self.is_locked() {
@@ -97,6 +139,15 @@ impl PidFileLocking {
     /// Returns the PID of the owner of the current lock. If the PID is not longer active the lock
     /// file will be removed
     pub fn get_locker_pid(&self) -> Option<usize> {
+        self.locker_pid(false)
+    }
+
+    /// As `get_locker_pid`, for callers that already hold the directory guard.
+    fn locker_pid_unguarded(&self) -> Option<usize> {
+        self.locker_pid(true)
+    }
+
+    fn locker_pid(&self, guard_is_held: bool) -> Option<usize> {
         let fs = File::open(&self.0);
         if let Ok(mut file) = fs {
             let mut contents = String::new();
@@ -106,7 +157,11 @@ impl PidFileLocking {
                 return if Self::is_pid_active(pid) {
                     Some(pid)
                 } else {
-                    let _ = self.remove_file();
+                    if guard_is_held {
+                        let _ = self.remove_file();
+                    } else {
+                        let _ = Self::remove_if_unchanged(&self.0, &contents);
+                    }
                     None
                 };
             }
@@ -142,27 +197,32 @@ impl PidFileLocking {
         fs.flush()?;
         drop(fs);
 
-        let mut result = Ok(());
-        // A second attempt is only made after a stale lock file has been removed.
-        for _ in 0..2 {
-            result = match hard_link(&tmp_path, &self.0) {
-                Err(e) if e.kind() == io::ErrorKind::AlreadyExists => {
-                    match self.get_locker_pid() {
-                        Some(owner) if owner == pid => Ok(()),
-                        Some(owner) => Err(io::Error::other(format!(
-                            "Cannot lock the file, it is locked by another process (PID: {owner})"
-                        ))),
-                        // The owner is gone and its lock file has been removed, try again.
-                        None => {
-                            result = Err(e);
-                            continue;
+        // Publication happens under the directory guard, so that it cannot fall into the middle of
+        // somebody's removal of a stale file with the same name.
+        let result = Self::with_dir_guard(|| {
+            let mut result = Ok(());
+            // A second attempt is only made after a stale lock file has been removed.
+            for _ in 0..2 {
+                result = match hard_link(&tmp_path, &self.0) {
+                    Err(e) if e.kind() == io::ErrorKind::AlreadyExists => {
+                        match self.locker_pid_unguarded() {
+                            Some(owner) if owner == pid => Ok(()),
+                            Some(owner) => Err(io::Error::other(format!(
+                                "Cannot lock the file, it is locked by another process (PID: {owner})"
+                            ))),
+                            // The owner is gone and its lock file has been removed, try again.
+                            None => {
+                                result = Err(e);
+                                continue;
+                            }
                         }
                     }
-                }
-                other => other,
-            };
-            break;
-        }
+                    other => other,
+                };
+                break;
+            }
+            result
+        });
         let _ = remove_file(&tmp_path);
         result
     }
@@ -193,14 +253,15 @@ impl PidFileLocking {
                     if let Ok(mut file) = File::open(&path) {
                         let mut contents = String::new();
                         if file.read_to_string(&mut contents).is_ok() {
-                            if let Ok(pid) = contents.trim().parse::<usize>() {
-                                if !Self::is_pid_active(pid) {
-                                    remove_file(&path)?;
+                            let stale = match contents.trim().parse::<usize>() {
+                                Ok(pid) => !Self::is_pid_active(pid),
+                                Err(_) => true,
+                            };
+                            if stale {
+                                drop(file);
+                                if Self::remove_if_unchanged(&path, &contents)? {
                                     cleaned_paths.push(path);
                                 }
-                            } else {
-                                remove_file(&path)?;
-                                cleaned_paths.push(path);
                             }
                         }
                     }
